@@ -1,6 +1,9 @@
 import Mieru.Proofs.Close
+import Mieru.Proofs.CloseAccept
 import Mieru.Proofs.StreamPrefix
+import Mieru.Proofs.CloseWriter
 import Mieru.Gen.Facts
+import Mieru.Gen.CloseFacts
 /-!
 # C03 — graceful close never turns a partial transfer into a clean end-of-stream
 
@@ -75,7 +78,7 @@ theorem udp_nothing_sent_after_close {E : Env} {s t : St} (st : Step E s t) (hw 
 theorem udp_close_partial {s : St} (h : Reach assumed s) (he : s.eof = true) : s.readLog = s.a.segs := by
   have inv := reach_cinv h
   obtain ⟨hc, hp⟩ := inv.eofI he
-  have hn := inv.o1 rfl rfl hc
+  have hn := inv.o1 rfl rfl rfl hc
   unfold St.readLog
   rw [hp, List.take_length, inv.arq.deliv, hn, List.take_length]
 
@@ -116,7 +119,7 @@ theorem udp_close_counterexample :
     wait of `closeWithError` expires while data is still queued, the close request is written out
     directly and the queue is discarded. -/
 theorem udp_close_wait_expiry_counterexample :
-    ∃ s, Reach ⟨true, false⟩ s ∧ s.eof = true ∧ s.readLog = [7] ∧ s.a.segs = [7, 8] ∧ s.a.sent = [⟨0, 7⟩] := by
+    ∃ s, Reach ⟨true, false, true⟩ s ∧ s.eof = true ∧ s.readLog = [7] ∧ s.a.segs = [7, 8] ∧ s.a.sent = [⟨0, 7⟩] := by
   let a2 : Arq.St := { Arq.init with segs := [7, 8] }
   let s2 : St := { init with a := a2 }
   let a3 : Arq.St := { a2 with qLo := 1, netData := [⟨0, 7⟩], sent := [⟨0, 7⟩] }
@@ -124,205 +127,126 @@ theorem udp_close_wait_expiry_counterexample :
   let s4 : St := { s3 with closeReq := true }
   let s5 : St := { s4 with closeSent := true, netClose := 1 }
   let s6 : St := { s5 with wClosed := true }
-  have r1 : Reach ⟨true, false⟩ { init with a := { Arq.init with segs := [7] } } :=
+  have r1 : Reach ⟨true, false, true⟩ { init with a := { Arq.init with segs := [7] } } :=
     Reach.step Reach.init (Step.write init 7 rfl)
-  have r2 : Reach ⟨true, false⟩ s2 := Reach.step r1 (Step.write _ 8 rfl)
-  have r3 : Reach ⟨true, false⟩ s3 := Reach.step r2 (Step.sendNew s2 7 rfl (by decide))
-  have r4 : Reach ⟨true, false⟩ s4 := Reach.step r3 (Step.closeCall s3 rfl)
-  have r5 : Reach ⟨true, false⟩ s5 := Reach.step r4 (Step.forceClose s4 rfl rfl rfl)
-  have r6 : Reach ⟨true, false⟩ s6 := Reach.step r5 (Step.discard s5 rfl)
+  have r2 : Reach ⟨true, false, true⟩ s2 := Reach.step r1 (Step.write _ 8 rfl)
+  have r3 : Reach ⟨true, false, true⟩ s3 := Reach.step r2 (Step.sendNew s2 7 rfl (by decide))
+  have r4 : Reach ⟨true, false, true⟩ s4 := Reach.step r3 (Step.closeCall s3 rfl)
+  have r5 : Reach ⟨true, false, true⟩ s5 := Reach.step r4 (Step.forceClose s4 rfl rfl rfl)
+  have r6 : Reach ⟨true, false, true⟩ s6 := Reach.step r5 (Step.discard s5 rfl)
   have r7 := Reach.step r6 (Step.recvData s6 ⟨0, 7⟩ (by decide))
   have r8 := Reach.step r7 (Step.recvClose _ (by decide) (by intro _ j hj; revert j; decide))
   have r9 := Reach.step r8 (Step.read _ (by decide))
   have r10 := Reach.step r9 (Step.readEOF _ (by decide) (by decide))
   exact ⟨_, r10, by decide, by decide, by decide, by decide⟩
 
-/-- Soundness of the correspondence (safety part): every history the executable acceptor accepts
-    leaves the model in a state where what the reader has read is a prefix of what was written and an
-    EOF was reported only on a closed session with its in-order queue drained. -/
-theorem accepted_history_reader_sound (es : List Ev) (c : Acc) (h : acceptAll {s := init} es = some c) :
-    c.s.a.delivered = c.s.a.segs.take c.s.a.nextRecv ∧
-    (c.s.eof = true → c.s.rClosed = true ∧ c.s.readPos = c.s.a.delivered.length) := by
-  suffices H : ∀ (es : List Ev) (c0 c : Acc), Arq.Inv c0.s.a →
-      (c0.s.eof = true → c0.s.rClosed = true ∧ c0.s.readPos = c0.s.a.delivered.length) →
-      acceptAll c0 es = some c →
-      Arq.Inv c.s.a ∧ (c.s.eof = true → c.s.rClosed = true ∧ c.s.readPos = c.s.a.delivered.length) by
-    obtain ⟨i, e⟩ := H es {s := init} c Arq.inv_init (by simp [init]) h
-    exact ⟨i.deliv, e⟩
-  intro es
-  induction es with
-  | nil => intro c0 c hi he h; simp [acceptAll] at h; subst h; exact ⟨hi, he⟩
-  | cons e es ih =>
-    intro c0 c hi he h
-    simp only [acceptAll] at h
-    split at h
-    · simp at h
-    · rename_i c1 hc1
-      refine ih c1 c ?_ ?_ h
-      · -- the Arq part keeps its invariant
-        cases e with
-        | arq ae =>
-          cases ae with
-          | write p =>
-            simp only [accept] at hc1
-            split at hc1
-            · simp at hc1
-            · simp only [Option.some.injEq] at hc1; subst hc1
-              exact Arq.accept_inv (.write p) hi (by simp [Arq.accept])
-          | send k p =>
-            simp only [accept] at hc1
-            split at hc1
-            · simp at hc1
-            · split at hc1
-              · simp at hc1
-              · rename_i a' ha'
-                simp only [Option.some.injEq] at hc1; subst hc1
-                exact Arq.accept_inv _ hi ha'
-          | deliver k p =>
-            simp only [accept] at hc1
-            split at hc1
-            · rename_i hmem
-              split at hc1
-              · simp only [Option.some.injEq] at hc1; subst hc1; exact hi
-              · simp only [Option.some.injEq] at hc1; subst hc1
-                exact Arq.accept_inv (.deliver k p) hi (by simp [Arq.accept, hmem])
-            · simp at hc1
-          | ack a =>
-            simp only [accept] at hc1
-            split at hc1
-            · simp at hc1
-            · rename_i a' ha'
-              simp only [Option.some.injEq] at hc1; subst hc1
-              exact Arq.accept_inv _ hi ha'
-          | ackIn a =>
-            simp only [accept] at hc1
-            split at hc1
-            · simp at hc1
-            · rename_i a' ha'
-              simp only [Option.some.injEq] at hc1; subst hc1
-              exact Arq.accept_inv _ hi ha'
-        | closeCall => simp only [accept] at hc1; split at hc1 <;> simp at hc1; subst hc1; exact hi
-        | closeSend =>
-          simp only [accept] at hc1
-          split at hc1
-          · simp at hc1
-          · split at hc1
-            · simp at hc1; subst hc1; exact hi
-            · split at hc1 <;> (simp at hc1; subst hc1; exact hi)
-        | closeRet =>
-          simp only [accept] at hc1
-          split at hc1
-          · simp at hc1
-          · split at hc1 <;> (simp at hc1; subst hc1; exact hi)
-        | closeDeliver => simp only [accept] at hc1; split at hc1 <;> simp at hc1; subst hc1; exact hi
-        | readAll => simp only [accept, Option.some.injEq] at hc1; subst hc1; exact hi
-        | readEOF => simp only [accept] at hc1; split at hc1 <;> simp at hc1; subst hc1; exact hi
-      · -- EOF is reported only on a closed, drained session, and stays that way
-        cases e with
-        | arq ae =>
-          cases ae with
-          | write p =>
-            simp only [accept] at hc1
-            split at hc1
-            · simp at hc1
-            · simp only [Option.some.injEq] at hc1; subst hc1; exact he
-          | send k p =>
-            simp only [accept] at hc1
-            split at hc1
-            · simp at hc1
-            · split at hc1
-              · simp at hc1
-              · rename_i a' ha'
-                simp only [Option.some.injEq] at hc1; subst hc1
-                have hd : a'.delivered = c0.s.a.delivered := by
-                  simp only [Arq.accept] at ha'
-                  split at ha'
-                  · simp at ha'
-                  · split at ha'
-                    · simp at ha'; subst ha'; rfl
-                    · split at ha'
-                      · simp at ha'; subst ha'; rfl
-                      · simp at ha'
-                simp only [hd]; exact he
-          | deliver k p =>
-            simp only [accept] at hc1
-            split at hc1
-            · split at hc1
-              · simp only [Option.some.injEq] at hc1; subst hc1; exact he
-              · rename_i hr
-                simp only [Option.some.injEq] at hc1; subst hc1
-                intro hE
-                exact absurd (he hE).1 hr
-            · simp at hc1
-          | ack a =>
-            simp only [accept] at hc1
-            split at hc1
-            · simp at hc1
-            · rename_i a' ha'
-              simp only [Option.some.injEq] at hc1; subst hc1
-              have hd : a'.delivered = c0.s.a.delivered := by
-                simp only [Arq.accept] at ha'
-                split at ha'
-                · simp at ha'; subst ha'; rfl
-                · simp at ha'
-              simp only [hd]; exact he
-          | ackIn a =>
-            simp only [accept] at hc1
-            split at hc1
-            · simp at hc1
-            · rename_i a' ha'
-              simp only [Option.some.injEq] at hc1; subst hc1
-              have hd : a'.delivered = c0.s.a.delivered := by
-                simp only [Arq.accept] at ha'
-                split at ha'
-                · simp at ha'; subst ha'; rfl
-                · simp at ha'
-              simp only [hd]; exact he
-        | closeCall => simp only [accept] at hc1; split at hc1 <;> simp at hc1; subst hc1; exact he
-        | closeSend =>
-          simp only [accept] at hc1
-          split at hc1
-          · simp at hc1
-          · split at hc1
-            · simp at hc1; subst hc1; exact he
-            · split at hc1 <;> (simp at hc1; subst hc1; exact he)
-        | closeRet =>
-          simp only [accept] at hc1
-          split at hc1
-          · simp at hc1
-          · split at hc1 <;> (simp at hc1; subst hc1; exact he)
-        | closeDeliver =>
-          simp only [accept] at hc1
-          split at hc1 <;> simp at hc1
-          subst hc1
-          intro hE; exact ⟨rfl, (he hE).2⟩
-        | readAll =>
-          simp only [accept, Option.some.injEq] at hc1; subst hc1
-          intro hE
-          have := he hE
-          exact ⟨this.1, by simp only; rw [this.2]; simp⟩
-        | readEOF =>
-          simp only [accept] at hc1
-          split at hc1 <;> simp at hc1
-          rename_i hg
-          subst hc1
-          intro _
-          simp only [Bool.and_eq_true, beq_iff_eq] at hg
-          exact hg
+/-- A third way, inside `ordered` AND `patient` (the network never hands a close request to the reader
+    at all, the writer's wait ends properly): the second data datagram and the close request are
+    lost, the writer's send state is gone, and the reader's session — which hears nothing any more —
+    is closed locally (on the packet transport after `idleSessionTimeout` = 60 s by
+    `cleanSessions → RemoveSession → s.Close()`). `Read` hands out the one segment it has and then
+    reports a clean EOF. This is why `udp_close_partial` needs its third assumption `kept`. -/
+theorem udp_close_idle_timeout_counterexample :
+    ∃ s, Reach ⟨true, true, false⟩ s ∧ s.eof = true ∧ s.readLog = [7] ∧ s.a.segs = [7, 8] ∧ s.readLog ≠ s.a.segs ∧
+      s.netClose = 0 ∧ s.wClosed = true := by
+  let a2 : Arq.St := { Arq.init with segs := [7, 8] }
+  let s2 : St := { init with a := a2 }
+  let a3 : Arq.St := { a2 with qLo := 1, netData := [⟨0, 7⟩], sent := [⟨0, 7⟩] }
+  let a4 : Arq.St := { a3 with qLo := 2, netData := [⟨1, 8⟩, ⟨0, 7⟩], sent := [⟨1, 8⟩, ⟨0, 7⟩] }
+  let s4 : St := { s2 with a := a4 }
+  let s5 : St := { s4 with closeReq := true }
+  let s6 : St := { s5 with closeSent := true, netClose := 1 }
+  let s7 : St := { s6 with wClosed := true }
+  let s8 : St := { s7 with a := { a4 with netData := [⟨0, 7⟩] } }
+  let s9 : St := { s8 with netClose := 0 }
+  have r1 : Reach ⟨true, true, false⟩ { init with a := { Arq.init with segs := [7] } } :=
+    Reach.step Reach.init (Step.write init 7 rfl)
+  have r2 : Reach ⟨true, true, false⟩ s2 := Reach.step r1 (Step.write _ 8 rfl)
+  have r3 : Reach ⟨true, true, false⟩ { s2 with a := a3 } := Reach.step r2 (Step.sendNew s2 7 rfl (by decide))
+  have r4 : Reach ⟨true, true, false⟩ s4 := Reach.step r3 (Step.sendNew _ 8 rfl (by decide))
+  have r5 : Reach ⟨true, true, false⟩ s5 := Reach.step r4 (Step.closeCall s4 rfl)
+  have r6 : Reach ⟨true, true, false⟩ s6 := Reach.step r5 (Step.sendClose s5 rfl rfl (by decide))
+  have r7 : Reach ⟨true, true, false⟩ s7 := Reach.step r6 (Step.discard s6 rfl)
+  have r8 : Reach ⟨true, true, false⟩ s8 := Reach.step r7 (Step.dropData s7 ⟨1, 8⟩)
+  have r9 : Reach ⟨true, true, false⟩ s9 := Reach.step r8 (Step.dropClose s8 (by decide))
+  have r10 := Reach.step r9 (Step.recvData s9 ⟨0, 7⟩ (by decide))
+  have r11 := Reach.step r10 (Step.localClose _ rfl)
+  have r12 := Reach.step r11 (Step.read _ (by decide))
+  have r13 := Reach.step r12 (Step.readEOF _ (by decide) (by decide))
+  exact ⟨_, r13, by decide, by decide, by decide, by decide, by decide, by decide⟩
+
+/-- Soundness of the correspondence for the HEADLINE statement: every history the executable acceptor
+    accepts leaves the model in a state where what the reader has read is a prefix of what was
+    written, an EOF was reported only on a closed session with its in-order queue drained, and — if the
+    acceptor's three flags say the run stayed inside the assumptions (every close delivery found all
+    transmitted data handed over; no forced close request, no `Close` returning before its request was
+    out; the reader's session closed by nothing but a delivered close request) — an EOF means the
+    reader has read EVERYTHING that was written. The harness's check
+    `C03/corr/udp-partial-eof-inside-assumptions` is therefore a consequence of this theorem and of
+    the acceptor accepting the history, not a convention. -/
+theorem accepted_history_sound (es : List Ev) (c : Acc) (h : acceptAll {s := init} es = some c) :
+    c.s.readLog = c.s.a.segs.take c.s.readPos ∧
+    (c.s.eof = true → c.s.rClosed = true ∧ c.s.readLog = c.s.a.delivered) ∧
+    (c.ordered = true → c.patient = true → c.kept = true → c.s.eof = true → c.s.readLog = c.s.a.segs) := by
+  have inv := acceptAll_ainv es ainv_init h
+  have hpre : c.s.readLog = c.s.a.segs.take c.s.readPos := by
+    unfold St.readLog
+    rw [inv.arq.deliv, List.take_take]
+    congr 1
+    have h1 := inv.readLe
+    rw [inv.arq.deliv, List.length_take] at h1
+    omega
+  refine ⟨hpre, ?_, ?_⟩
+  · intro he
+    obtain ⟨hc, hp⟩ := inv.eofI he
+    exact ⟨hc, by unfold St.readLog; rw [hp, List.take_length]⟩
+  · intro ho hp hk he
+    obtain ⟨hc, hpos⟩ := inv.eofI he
+    have hn := inv.o1 hp ho hk hc
+    unfold St.readLog
+    rw [hpos, List.take_length, inv.arq.deliv, hn, List.take_length]
+
+/-- What the driver reports as "the model predicts a strict prefix followed by EOF" (`navail < total`
+    after an accepted `readAll, readEOF`) is impossible inside the three assumptions. -/
+theorem accepted_no_partial_eof_inside_assumptions (es : List Ev) (c : Acc)
+    (h : acceptAll {s := init} (es ++ [.readAll, .readEOF]) = some c)
+    (ho : c.ordered = true) (hp : c.patient = true) (hk : c.kept = true) :
+    c.s.eof = true ∧ ¬ (c.s.a.delivered.length < c.s.a.segs.length) := by
+  have inv := acceptAll_ainv _ ainv_init h
+  have he : c.s.eof = true := by
+    rw [acceptAll_append] at h
+    cases h1 : acceptAll {s := init} es with
+    | none => rw [h1] at h; simp at h
+    | some c1 =>
+      rw [h1] at h
+      simp only [Option.bind_some, acceptAll, accept] at h
+      split at h
+      · simp at h
+      · rename_i c2 hc2
+        split at hc2
+        · simp only [Option.some.injEq] at hc2; subst hc2
+          simp only [Option.some.injEq] at h; subst h; rfl
+        · simp at hc2
+  refine ⟨he, ?_⟩
+  obtain ⟨hc, _⟩ := inv.eofI he
+  have hn := inv.o1 hp ho hk hc
+  rw [inv.arq.deliv, List.length_take, hn]
+  omega
 
 /-! ## Stream transport -/
 
 open Mieru.StreamWire Mieru.CloseStream in
-/-- On the stream transport the close request is the last thing the receiving underlay parses for
-    the session. For any AEAD / metadata codec that round-trip, any well-formed segment sequence on
-    the connection (other sessions interleaved) in which this session's items are the fragments of
-    `d` followed by its close request, and ANY prefix of the byte stream (any moment, any chunking):
-    the receive queue is a prefix of the fragments, the session is closed only if the queue holds
-    them all, and a `Read` that reports EOF has handed out all of `d`. -/
+/-- Receiving side. For any AEAD / metadata codec that round-trip, any well-formed segment sequence
+    on the connection (other sessions interleaved) in which this session's items are `WireOk` for the
+    fragments of `d` — a prefix of the fragments, or ALL of them followed by a close request followed
+    by anything (a forced duplicate, a close response, a segment that was in flight) — and ANY prefix
+    of the byte stream (any moment, any chunking): the receive queue is a prefix of the fragments, the
+    session is closed only if the queue holds them all, and a `Read` that reports EOF has handed out
+    all of `d`. (Round 1 stated this for the exact wire `fragments ++ [close request]` only.) -/
 theorem tcp_close_after_all_data (A : Aead) (M : MetaCodec) (fuel : Nat) (hfuel : 0 < fuel)
     (segs : List Seg) (hw : ∀ s ∈ segs, s.wf M) (c : Nat)
     (cls : Md → Nat × (Bytes → Item)) (sid : Nat) (frags : List Bytes)
-    (hsess : sessionItems cls sid (segs.map (fun s => (s.md, s.payload))) = frags.map Item.data ++ [Item.closeReq])
+    (hsess : WireOk frags (sessionItems cls sid (segs.map (fun s => (s.md, s.payload)))))
     (k pos : Nat) :
     let rx := feed A M fuel ⟨c, [], [], false⟩ ((encodeAll A M c segs).take k)
     let sr := run SRx.init (sessionItems cls sid rx.out)
@@ -333,9 +257,9 @@ theorem tcp_close_after_all_data (A : Aead) (M : MetaCodec) (fuel : Nat) (hfuel 
   obtain ⟨ex, hex⟩ := feed_take_prefix A M fuel ⟨c, [], [], false⟩ (encodeAll A M c segs) k
   rw [hfull] at hex
   simp only [List.nil_append] at hex
-  have hitems : sessionItems cls sid rx.out ++ sessionItems cls sid ex = frags.map Item.data ++ [Item.closeReq] := by
-    rw [← sessionItems_append, hex, hsess]
-  obtain ⟨hpre, hclosed⟩ := run_prefix frags _ _ hitems
+  have hitems : WireOk frags (sessionItems cls sid rx.out ++ sessionItems cls sid ex) := by
+    rw [← sessionItems_append, hex]; exact hsess
+  obtain ⟨hpre, hclosed⟩ := run_prefix_ok frags _ _ hitems
   refine ⟨hpre, hclosed, ?_⟩
   intro hr
   unfold readOnce at hr
@@ -354,6 +278,142 @@ theorem tcp_close_after_all_data (A : Aead) (M : MetaCodec) (fuel : Nat) (hfuel 
       exact ⟨rfl, rfl⟩
     · simp at hr
 
+open Mieru.CloseStream in
+/-- Writing side (`Model/CloseWriter`: `writeChunk`, `runOutputOnceStream`, `closeWithError` with its
+    bounded wait and its direct write, `oLock`, the queue's capacity). In every reachable state —
+    under `wAssumed`: the output-loop goroutine is not starved for the whole bounded wait, writes to
+    the underlay do not fail, and (a regenerated fact about the code, `close_lock_scope`) `oLock` is held
+    across the whole drain — what the session has put on the wire is `WireOk`: a prefix of the
+    fragments `Write` accepted, or all of them followed by the close request(s). `Insert` can never
+    refuse the close request (`writeChunk` reserves its slot), and once `Close` has returned the wire
+    holds every fragment followed by at least one close request. -/
+theorem tcp_writer_wire_order (cap : Nat) (hcap : 0 < cap) {s : WSt} (h : WReach wAssumed cap s) :
+    WireOk s.frags s.wire ∧ (s.ph = Phase.idle → s.queue.length < s.cap) := by
+  have inv := wreach_winv hcap h
+  exact ⟨winv_wireOk inv, inv.capI⟩
+
+open Mieru.CloseStream in
+/-- … and when `Close()` has returned, every fragment is on the wire in front of a close request,
+    nothing but close requests / responses follows it (a forced duplicate; the answer to the close
+    request of the peer's session closing in turn — the driver's `data-after-close-request` check),
+    and nothing is left in the queue or in flight. -/
+theorem tcp_writer_close_returns_after_all_data (cap : Nat) (hcap : 0 < cap) {s : WSt}
+    (h : WReach wAssumed cap s) (hd : s.ph = Phase.done) :
+    ∃ rest, s.wire = s.frags.map Item.data ++ Item.closeReq :: rest ∧
+      (∀ x ∈ rest, x = Item.closeReq ∨ x = Item.closeResp) ∧ s.queue = [] ∧ s.inflight = none := by
+  have inv := wreach_winv hcap h
+  have hsh := inv.shape
+  simp only [Shape, hd] at hsh
+  obtain ⟨hi, hq, rest, hw, hr⟩ := hsh
+  exact ⟨rest, hw, hr, hq, hi⟩
+
+open Mieru.StreamWire Mieru.CloseStream in
+/-- The property on the stream transport, end to end — writer model, wire, byte stream, receiving
+    underlay, session input, `Read`: take ANY reachable state of the writer (any interleaving of
+    `Write`s, the output loop, `Close`, the bounded wait) under `wAssumed`; let the connection carry any
+    well-formed segment sequence whose items for this session are what the writer has written so far
+    (other sessions interleaved), and let ANY prefix of its bytes have arrived in ANY chunking. Then a
+    `Read` that reports EOF has handed out every fragment `Write` accepted — all of `d`. -/
+theorem tcp_close_end_to_end (A : Aead) (M : MetaCodec) (fuel : Nat) (hfuel : 0 < fuel)
+    (cap : Nat) (hcap : 0 < cap) (ws : WSt) (hreach : WReach wAssumed cap ws)
+    (segs : List Seg) (hw : ∀ s ∈ segs, s.wf M) (c : Nat)
+    (cls : Md → Nat × (Bytes → Item)) (sid : Nat)
+    (hsess : sessionItems cls sid (segs.map (fun s => (s.md, s.payload))) = ws.wire)
+    (k pos : Nat) :
+    let rx := feed A M fuel ⟨c, [], [], false⟩ ((encodeAll A M c segs).take k)
+    let sr := run SRx.init (sessionItems cls sid rx.out)
+    (∃ more, sr.queue ++ more = ws.frags) ∧ (sr.closed = true → sr.queue = ws.frags) ∧
+    (readOnce sr pos = RdEv.eof → (sr.queue.take pos).flatten = ws.frags.flatten) := by
+  have hok : WireOk ws.frags (sessionItems cls sid (segs.map (fun s => (s.md, s.payload)))) := by
+    rw [hsess]; exact winv_wireOk (wreach_winv hcap hreach)
+  have := tcp_close_after_all_data A M fuel hfuel segs hw c cls sid ws.frags hok k pos
+  exact ⟨this.1, this.2.1, fun hr => (this.2.2 hr).2⟩
+
+open Mieru.CloseStream in
+/-- Without `sched` the statement is false in the model of the code as it is: if the output loop does
+    not get to run for the whole bounded wait (1000 × 1 ms) while the fragment and the close request
+    sit in `sendQueue`, `closeWithError` takes the free `oLock`, writes the close request out directly
+    and discards the queue: the wire carries the close request and no data, the peer's session is
+    closed with an empty queue and `Read` reports EOF at once. NOT reproduced on the real endpoints:
+    it needs a runnable goroutine to be starved for a full second (no blocking operation lies between
+    the wake-up of the output loop and `oLock.Lock()`), so this is the model's record of what the
+    theorem assumes, not a finding. -/
+theorem tcp_close_wait_expiry_counterexample :
+    ∃ s, WReach wAsIs 4096 s ∧ s.ph = Phase.done ∧ s.frags = [[1]] ∧ s.wire = [Item.closeReq] ∧
+      ¬ WireOk s.frags s.wire ∧ readOnce (run SRx.init s.wire) 0 = RdEv.eof := by
+  let s1 : WSt := { winit 4096 with queue := [Item.data [1]], frags := [[1]] }
+  let s2 : WSt := { s1 with queue := [Item.data [1], Item.closeReq], ph := .waiting }
+  let s3 : WSt := { s2 with ph := .forcing }
+  let s4 : WSt := { s3 with ph := .discarding, wire := [Item.closeReq] }
+  let s5 : WSt := { s4 with queue := [], ph := .done }
+  have r1 : WReach wAsIs 4096 s1 := WReach.step WReach.init (WStep.write (winit 4096) [[1]] rfl rfl rfl (by decide))
+  have r2 : WReach wAsIs 4096 s2 := WReach.step r1 (WStep.closeQueued s1 rfl rfl (by decide))
+  have r3 : WReach wAsIs 4096 s3 := WReach.step r2 (WStep.waitExpire s2 rfl (by intro hf; simp [wAsIs] at hf))
+  have r4 : WReach wAsIs 4096 s4 := WReach.step r3 (WStep.forceOut s3 true rfl rfl (fun _ => rfl))
+  have r5 : WReach wAsIs 4096 s5 := WReach.step r4 (WStep.discard s4 rfl)
+  refine ⟨s5, r5, rfl, rfl, rfl, ?_, by decide⟩
+  rw [← wireOkB_iff]; decide
+
+open Mieru.CloseStream in
+/-- The lock scope is load-bearing. In the hypothetical code that holds `oLock` only while it takes a
+    segment out of `sendQueue` (`drainLocked = false`, everything else as assumed — in particular the
+    output loop is NOT idle: it is blocked inside a network write): the first fragment is in flight,
+    the second and the close request are queued, the wait expires, `closeWithError` gets the free lock,
+    writes the close request and discards the queue; the in-flight fragment follows. The peer reads
+    nothing and sees a clean EOF. (This is seeded change C03-3; `close_lock_scope` is the regenerated
+    fact that rules it out for the code as it is.) -/
+theorem tcp_lock_scope_counterexample :
+    ∃ s, WReach wNarrowLock 4096 s ∧ s.ph = Phase.done ∧ s.frags = [[1], [2]] ∧
+      s.wire = [Item.closeReq, Item.data [1]] ∧ ¬ WireOk s.frags s.wire ∧
+      readOnce (run SRx.init s.wire) 0 = RdEv.eof := by
+  let s1 : WSt := { winit 4096 with queue := [Item.data [1], Item.data [2]], frags := [[1], [2]] }
+  let s2 : WSt := { s1 with olock := true }
+  let s3 : WSt := { s2 with queue := [Item.data [2]], inflight := some (Item.data [1]) }
+  let s4 : WSt := { s3 with olock := false }
+  let s5 : WSt := { s4 with queue := [Item.data [2], Item.closeReq], ph := .waiting }
+  let s6 : WSt := { s5 with ph := .forcing }
+  let s7 : WSt := { s6 with ph := .discarding, wire := [Item.closeReq] }
+  let s8 : WSt := { s7 with queue := [], ph := .done }
+  let s9 : WSt := { s8 with inflight := none, wire := [Item.closeReq, Item.data [1]] }
+  have r1 : WReach wNarrowLock 4096 s1 :=
+    WReach.step WReach.init (WStep.write (winit 4096) [[1], [2]] rfl rfl rfl (by decide))
+  have r2 : WReach wNarrowLock 4096 s2 := WReach.step r1 (WStep.outLock s1 rfl rfl rfl)
+  have r3 : WReach wNarrowLock 4096 s3 := WReach.step r2 (WStep.outDequeue s2 _ _ rfl rfl rfl)
+  have r4 : WReach wNarrowLock 4096 s4 := WReach.step r3 (WStep.outUnlockEarly s3 rfl rfl)
+  have r5 : WReach wNarrowLock 4096 s5 := WReach.step r4 (WStep.closeQueued s4 rfl rfl (by decide))
+  have r6 : WReach wNarrowLock 4096 s6 :=
+    WReach.step r5 (WStep.waitExpire s5 rfl (fun _ => Or.inr (Or.inl (by decide))))
+  have r7 : WReach wNarrowLock 4096 s7 := WReach.step r6 (WStep.forceOut s6 true rfl rfl (fun _ => rfl))
+  have r8 : WReach wNarrowLock 4096 s8 := WReach.step r7 (WStep.discard s7 rfl)
+  have r9 : WReach wNarrowLock 4096 s9 :=
+    WReach.step r8 (WStep.outWrite s8 (Item.data [1]) rfl (by intro hf; simp [wNarrowLock] at hf))
+  refine ⟨s9, r9, rfl, rfl, rfl, ?_, by decide⟩
+  rw [← wireOkB_iff]; decide
+
+open Mieru.CloseStream in
+/-- What the stream-transport theorems assume besides `wAssumed`: the TCP connection survives. If the
+    underlay is torn down (reset, read error, a failed open of any multiplexed session's segment), every
+    session on it is closed GRACEFULLY (`baseUnderlay.Close → s.Close()`, pinned by
+    `close_wait_and_idle_constants`), so a reader that has one of two fragments drains it and sees a clean
+    EOF. C03 quantifies over datagram faults, not over the death of a TCP connection, so this is the
+    boundary of the statement, not a counterexample to it; the harness records the behaviour of the real
+    endpoints on every run (`tcp-reset`, histogram `tcp_reset_reader_outcome`). -/
+theorem tcp_reader_local_close_counterexample :
+    let sr := localClose (run SRx.init [.data [1]])
+    WireOk [[1], [2]] [.data [1]] ∧ sr.queue = [[1]] ∧ readOnce sr 1 = RdEv.eof := by
+  refine ⟨?_, by decide, by decide⟩
+  rw [← wireOkB_iff]; decide
+
+open Mieru.CloseStream in
+/-- Soundness of the writer-side correspondence: a history of application calls and wire emissions that
+    the executable acceptor accepts without having had to explain a close request as a forced write
+    that overtook queued data (`sched` still set) has a `WireOk` wire — so the driver's `wireOkB` bit
+    must be 1 whenever its `sched` bit is, and `tcp_close_after_all_data` applies to what the peer got. -/
+theorem writer_history_sound (es : List WEv) (c : WAcc) (h : wacceptAll {} es = some c) (hs : c.sched = true) :
+    WireOk c.frags c.wire ∧ wireOkB c.frags c.wire = true := by
+  have := wainv_wireOk (wacceptAll_wainv es wainv_init h) hs
+  exact ⟨this, (wireOkB_iff _ _).mpr this⟩
+
 /-- Structural tie (regenerated from session.go on every run): `closeWithError` is the one place that
     empties `sendQueue` and `sendBuf`; `inputClose` is called from `input` for close requests and
     responses with no other condition, and reads no receive-sequence state; the stream output loop
@@ -367,6 +427,57 @@ theorem close_path_structure :
       ["s.outputHasErr.Load", "time.Sleep", "s.oLock.Lock", "s.sendQueue.DeleteMin", "s.oLock.Unlock", "s.output"] ∧
     (Gen.Facts.selects.filter (fun x => x.1 == "Session.Read")).map (fun x => x.2.2.2) =
       [["<-s.closedChan", "<-s.inputErr", "<-s.recvQueue.chanNotEmptyEvent", "<-timeC"]] := by decide
+
+/-- Lock-scope tie (regenerated by abstract interpretation of the statement trees of session.go on
+    every run — control flow, not source order): in `runOutputOnceStream` the dequeue AND the network
+    write happen with `oLock` held, and the lock is released only on the two exits of the drain loop
+    (queue empty; output failed, before `closeWithError`) — this is `WEnv.drainLocked` of the writer
+    model, without which `tcp_lock_scope_counterexample` applies; in `closeWithError` the close request
+    is inserted under the lock, the bounded wait runs without it, the direct write takes it again, and
+    both `DeleteAll`s come last and without it; and in EVERY function of the session that touches the
+    lock, `output`, `sendQueue.Insert/DeleteMin/DeleteMinIf`, `sendBuf.Insert` run only with the lock
+    held, `Lock` is never called with the lock held, `closeWithError` / `Close` never with it (they
+    take it), and no function falls off its end holding it. -/
+theorem close_lock_scope :
+    (Gen.CloseFacts.lockScope.filter (fun x => x.1 == "Session.runOutputOnceStream")).map (fun x => x.2) =
+      [("time.Sleep", "free"), ("s.oLock.Lock", "free"),
+       ("s.sendQueue.DeleteMin", "held"), ("s.oLock.Unlock", "held"), ("s.output", "held"),
+       ("s.oLock.Unlock", "held"), ("s.closeWithError", "free"), ("<end>", "free")] ∧
+    (Gen.CloseFacts.lockScope.filter (fun x => x.1 == "Session.closeWithError")).map (fun x => x.2) =
+      [("s.oLock.Lock", "free"), ("s.sendQueue.Insert", "held"), ("s.oLock.Unlock", "held"),
+       ("s.oLock.Unlock", "held"), ("time.Sleep", "free"), ("s.lastSend.Load", "free"),
+       ("s.oLock.Unlock", "held"), ("s.oLock.Lock", "free"), ("s.output", "held"), ("s.oLock.Unlock", "held"),
+       ("s.sendQueue.DeleteAll", "free"), ("s.sendBuf.DeleteAll", "free"), ("<end>", "unreachable")] ∧
+    Gen.CloseFacts.lockScope.all (fun x =>
+      (if x.2.1 == "s.output" || x.2.1 == "s.sendQueue.Insert" || x.2.1 == "s.sendQueue.DeleteMin" ||
+          x.2.1 == "s.sendQueue.DeleteMinIf" || x.2.1 == "s.sendBuf.Insert" || x.2.1 == "s.oLock.Unlock"
+        then x.2.2 == "held" else true) &&
+      (if x.2.1 == "s.oLock.Lock" || x.2.1 == "s.closeWithError" || x.2.1 == "s.Close" then x.2.2 == "free" else true) &&
+      (if x.2.1 == "<end>" then x.2.2 == "free" || x.2.2 == "unreachable" else true)) = true ∧
+    (Gen.CloseFacts.lockScope.map (fun x => x.1)).eraseDups =
+      ["Session.Write", "Session.writeChunk", "Session.runOutputOnceStream", "Session.runOutputOncePacket",
+       "Session.inputData", "Session.inputClose", "Session.closeWithError"] := by decide
+
+/-- The constants and shapes the models and the finding keys rely on, regenerated from the source:
+    the bounded wait of `closeWithError` is `for i := 0; i < 1000; i++ { time.Sleep(time.Millisecond); if
+    s.lastSend.Load() >= …` (`Close.closeWaitMs`; the model's `forceClose` / `waitExpire`);
+    `writeChunk` waits while `Remaining() <= nFragment`, i.e. keeps one slot free for the close request
+    (`WStep.write`'s guard, `tcp_writer_wire_order`'s second conjunct); `Read` answers `closedChan`
+    with a clean `io.EOF` and `inputErr` with `io.ErrUnexpectedEOF`; a packet session that has received
+    nothing for `idleSessionTimeout = time.Minute` (`Close.idleTimeoutMs`) is removed, and removing a
+    session or closing an underlay closes the session GRACEFULLY (`s.Close()`) — the model's
+    `localClose`. -/
+theorem close_wait_and_idle_constants :
+    Gen.CloseFacts.closeWaitLoops = [("i := 0", "i < 1000", "i++", ["time.Sleep", "s.lastSend.Load"])] ∧
+    Gen.CloseFacts.closeSleeps = ["time.Millisecond"] ∧ Close.closeWaitMs = 1000 * 1 ∧
+    Gen.CloseFacts.writeReserve = ["s.sendQueue.Remaining() <= nFragment"] ∧
+    Gen.CloseFacts.readSelect = [("<-s.closedChan", "return 0, io.EOF"), ("<-s.inputErr", "return 0, io.ErrUnexpectedEOF"),
+      ("<-timeC", "return 0, stderror.ErrTimeout"), ("<-s.recvQueue.chanNotEmptyEvent", "")] ∧
+    Gen.CloseFacts.idleClose = [("idleSessionTimeout", "time.Minute"),
+      ("cleanSessions removes under", "select <-session.closedChan"),
+      ("cleanSessions removes under", "time.Now().UnixMicro()-session.lastRXTime.Load() > idleSessionTimeout.Microseconds()"),
+      ("baseUnderlay.Close calls", "s.Close"), ("baseUnderlay.RemoveSession calls", "s.Close")] ∧
+    Close.idleTimeoutMs = 60 * 1000 := by decide
 
 /-! ## Non-vacuity -/
 
@@ -391,11 +502,42 @@ example : ∃ s, Reach assumed s ∧ s.eof = true ∧ s.readLog = [7] ∧ s.a.se
 /-- the acceptor accepts the lossy history of the counterexample and reports the partial EOF, and
     rejects an EOF on an open session and a transmission after `Close` returned -/
 example :
-    (acceptAll {s := init} [.arq (.write 7), .arq (.write 8), .arq (.send 0 7), .arq (.send 1 8), .closeCall, .closeSend,
+    (acceptAll {s := init} [.arq (.write 7), .arq (.write 8), .arq (.send 0 7), .arq (.send 1 8), .closeCall, .closeSend 3,
         .closeRet, .arq (.deliver 0 7), .closeDeliver, .readAll, .readEOF]).map
       (fun c => (c.s.readLog, c.s.eof, c.ordered, c.patient)) = some ([7], true, false, true) ∧
     (acceptAll {s := init} [.arq (.write 7), .arq (.send 0 7), .arq (.deliver 0 7), .readAll, .readEOF]).isNone = true ∧
-    (acceptAll {s := init} [.arq (.write 7), .arq (.send 0 7), .closeCall, .closeSend, .closeRet, .arq (.send 0 7)]).isNone = true := by
+    (acceptAll {s := init} [.arq (.write 7), .arq (.send 0 7), .closeCall, .closeSend 3, .closeRet, .arq (.send 0 7)]).isNone = true := by
+  decide
+
+/-- the acceptor's timing and local-close rules: a close request written out directly (data still
+    queued) is explained as the expired wait only from 1000 ms after `Close()` was called — and leaves
+    `patient`; a reader closed with no close request delivered is explained as the idle timeout only after
+    60 s of silence — and leaves `kept`; `Close()` cannot return before a close request was emitted -/
+example :
+    (acceptAll {s := init} [.arq (.write 7), .arq (.write 8), .arq (.send 0 7), .closeCall, .closeSend 999]).isNone = true ∧
+    (acceptAll {s := init} [.arq (.write 7), .arq (.write 8), .arq (.send 0 7), .closeCall, .closeSend 1000]).map
+      (fun c => (c.patient, c.s.closeSent)) = some (false, true) ∧
+    (acceptAll {s := init} [.arq (.write 7), .arq (.send 0 7), .closeCall, .closeRet]).isNone = true ∧
+    (acceptAll {s := init} [.arq (.write 7), .arq (.write 8), .arq (.send 0 7), .arq (.send 1 8), .closeCall, .closeSend 2,
+        .closeRet, .arq (.deliver 0 7), .localClose 59999]).isNone = true ∧
+    (acceptAll {s := init} [.arq (.write 7), .arq (.write 8), .arq (.send 0 7), .arq (.send 1 8), .closeCall, .closeSend 2,
+        .closeRet, .arq (.deliver 0 7), .localClose 60000, .readAll, .readEOF]).map
+      (fun c => (c.s.readLog, c.s.eof, c.ordered, c.patient, c.kept)) = some ([7], true, true, true, false) := by
+  decide
+
+open Mieru.CloseStream in
+/-- the writer acceptor: the ordinary history (two fragments, close request behind them) is accepted
+    with a `WireOk` wire; a close request written directly 1.7 s after `Close()` while a fragment is
+    still queued (seeded change C03-3 on a stalled connection) is accepted as the expired wait with
+    `sched` cleared and a wire that is NOT `WireOk`; the same 0.9 s after `Close()` is rejected; a
+    fragment out of queue order is rejected -/
+example :
+    (wacceptAll {} [.write [3, 2], .out (.data [0, 0, 0]) 0, .closeCall, .out (.data [0, 0]) 1, .out .closeReq 1, .closeRet]).map
+      (fun c => (c.sched, wireOkB c.frags c.wire, c.ph)) = some (true, true, Phase.done) ∧
+    (wacceptAll {} [.write [0, 2], .closeCall, .out (.data []) 1700, .out .closeReq 1700, .closeRet, .out (.data [0, 0]) 1701]).map
+      (fun c => (c.sched, wireOkB c.frags c.wire, c.ph)) = some (false, false, Phase.done) ∧
+    (wacceptAll {} [.write [0, 2], .closeCall, .out (.data []) 900, .out .closeReq 900]).isNone = true ∧
+    (wacceptAll {} [.write [3, 2], .out (.data [0, 0]) 0]).isNone = true := by
   decide
 
 open Mieru.CloseStream in
